@@ -84,7 +84,7 @@ PROPS = {
                  "Both the dev build (overflow checks on) and the release build (wrap-around) are run. Non-trivial = "
                  ">=1 attribute; distinct = hash of the canonical bytes."),
         "assumptions": [STABLE],
-        "min_counters": {"fits.ok": 1000, "short.err": 1000, "oversize.err": 10},
+        "min_counters": {"fits.ok": 1000, "short.err": 1000, "oversize.err": 10, "over-limit.padding-crosses-limit": 6},
     },
     "C19": {
         "title": "Value types never panic and clones are independent",
